@@ -88,6 +88,7 @@ type fakeClient struct {
 	// really reach the check at the same time
 	rendezvous, arrived atomic.Int32
 	quotaErr            bool // GetUserQuota fails: documented as "do not block the connection"
+	onDial              func(i int, tunnelID, mappingID string)
 }
 
 func (f *fakeClient) DialTunnel(tunnelID, mappingID, secretKey string) (net.Conn, stream.PackageStreamer, error) {
@@ -97,7 +98,10 @@ func (f *fakeClient) DialTunnel(tunnelID, mappingID, secretKey string) (net.Conn
 	f.mu.Lock()
 	f.far = append(f.far, b)
 	f.mu.Unlock()
-	f.dials.Add(1)
+	n := f.dials.Add(1)
+	if hook := f.onDial; hook != nil {
+		hook(int(n)-1, tunnelID, mappingID)
+	}
 	f.signal()
 	return tc, &pipeStream{c: tc}, nil
 }
@@ -268,6 +272,15 @@ func roundMappingCap(t vkit.TB, c Case) {
 		if !ok {
 			vkit.Skipped(1)
 			return
+		}
+	}
+	// settle() counts a closed local connection as an outcome, but a connection whose tunnel was
+	// dialed and then ended early is closed too: when nothing may be refused (unlimited, or still
+	// below the limit) give the handlers that are still on their way to DialTunnel time to get there
+	// before judging "never dialed".
+	if k == 0 || r.fed <= k {
+		for wait := time.Now().Add(2 * time.Second); admittedBefore() < r.fed && time.Now().Before(wait); {
+			time.Sleep(time.Millisecond)
 		}
 	}
 	admitted := admittedBefore()
